@@ -28,16 +28,13 @@ def run(ctx):
                             timeout=ctx.pick(900, 1500), label="required, root+2 blocks, lists<=2")
         ctx.check_coverage(r, ["Block", "Commit", "FlushDone"], allow_zero=("Has", "Restart"))
     if not ctx.quick() and not fast:
-        r2 = ctx.model_check("exec", "MC_TxLocator", "MC_TxLocator.cfg", constants=big, coverage=True,
-                             timeout=2400, label="required, root+3 blocks, lists<=1")
-        ctx.check_coverage(r2, ["Block", "Commit", "FlushDone"], allow_zero=("Has", "Restart"))
         for label, extra in (("forced adds", dict(ForceOn="TRUE")), ("patch group (synchronous flush)", dict(Group='"patch"'))):
             r3 = ctx.model_check("exec", "MC_TxLocator", "MC_TxLocator.cfg", constants=dict(small, **extra), coverage=True,
                                  timeout=1500, label="required, root+2 blocks, " + label)
             ctx.check_coverage(r3, ["Block", "Commit"], allow_zero=("Has", "Restart", "FlushDone"))
         r4 = ctx.model_check("exec", "MC_TxLocator", "MC_TxLocator.cfg",
                              constants=dict(small, MaxNodes=4, MaxTs=3, MaxList=1, RestartOn="TRUE"), coverage=True,
-                             timeout=2400, label="required, restart, 4 trackers")
+                             timeout=2400, label="required, root+3 trackers (one id per block) with and without a restart")
         ctx.check_coverage(r4, ["Block", "Commit", "FlushDone", "Restart"], allow_zero=("Has",))
     ctx.exhaustive = not fast
     # 1b. the same model with the comparisons as written in manager.go: TLC must derive a duplicate
